@@ -138,11 +138,11 @@ theorem adjust_stream_of_le (cw : Char → Nat) (l : List (Segment σ)) (n : Nat
 /-! ## Panel -/
 
 /-- the top border line as `split_lines` sees it (`cwid` = the child width, the panel is `cwid + 2` wide) -/
-def panelTopLine (cw : Char → Nat) (env : Env) (o : PanelOpts) (box : Box) (cwid : Int) : Option (List (Segment σ)) :=
+def panelTopLine (cw : Char → Nat) (env : Env) (v : Variant) (o : PanelOpts) (box : Box) (cwid : Int) : Option (List (Segment σ)) :=
   match panelTitle o.title with
   | none => some [seg (boxTop box cwid)]
   | some t =>
-    match textConsoleSimple cw (textAlign cw t o.titleAlign (cwid - 2) box.top) [] (env.consoleWidth : Int) with
+    match textConsoleSimple cw v (textAlign cw t o.titleAlign (cwid - 2) box.top) [] (env.consoleWidth : Int) with
     | none => none
     | some ts => some ([seg [box.topLeft, box.top]] ++ ts ++ [seg [box.top, box.topRight]])
 
@@ -159,17 +159,20 @@ def Box.Narrow (cw : Char → Nat) (b : Box) : Prop :=
 theorem simpleChar_ne_nl (c : Char) (h : simpleChar c = true) : c ≠ '\n' := by
   intro heq; subst heq; revert h; decide
 
-theorem rstripEnd_prefix (plain : List Char) (w : Int) : ∃ k, rstripEnd plain w = plain.take k := by
+theorem rstripEnd_prefix (cw : Char → Nat) (v : Variant) (plain : List Char) (w : Int) :
+    ∃ k, rstripEnd cw v plain w = plain.take k := by
   unfold rstripEnd
-  by_cases h1 : (plain.length : Int) > w
+  simp only
+  generalize (if v.rstripCountsChars = true then (plain.length : Int) else (cellLen cw plain : Int)) = tl
+  by_cases h1 : tl > w
   · simp only [h1, if_true]
     by_cases h2 : (trailingSpaces plain != 0) = true
-    · exact ⟨plain.length - (min (trailingSpaces plain : Int) ((plain.length : Int) - w)).toNat, by simp only [h2, if_true]⟩
+    · exact ⟨plain.length - (min (trailingSpaces plain : Int) (tl - w)).toNat, by simp only [h2, if_true]⟩
     · exact ⟨plain.length, by simp [h2]⟩
   · exact ⟨plain.length, by simp [h1]⟩
 
-theorem textConsoleSimple_nlFree (cw : Char → Nat) (plain : List Char) (w : Int) (ts : List (Segment σ))
-    (h : textConsoleSimple cw plain [] w = some ts) : NlFree ts := by
+theorem textConsoleSimple_nlFree (cw : Char → Nat) (v : Variant) (plain : List Char) (w : Int) (ts : List (Segment σ))
+    (h : textConsoleSimple cw v plain [] w = some ts) : NlFree ts := by
   unfold textConsoleSimple at h
   split at h
   · rename_i hc
@@ -182,7 +185,7 @@ theorem textConsoleSimple_nlFree (cw : Char → Nat) (plain : List Char) (w : In
       intro c hcm
       apply simpleChar_ne_nl c
       apply hc.1 c
-      obtain ⟨k, hk⟩ := rstripEnd_prefix plain w
+      obtain ⟨k, hk⟩ := rstripEnd_prefix cw v plain w
       rw [hk] at hcm
       exact List.mem_of_mem_take hcm
   · simp at h
@@ -208,7 +211,7 @@ theorem panelConsole_lines (cw : Char → Nat) (hsp : cw ' ' = 1) (h2 : ∀ c, c
     (hp : unpackPad o.padding = .ok p)
     (hb : boxAt (substituteBox env (o.safeBox.getD env.safeBox) o.box) = some box) (hnn : box.NoNl)
     (h : panelConsole cw env v o c w = .ok (some out)) :
-    ∃ top, panelTopLine cw env o box (panelChildWidth cw v o (panelInner cw v p c) w) = some top ∧
+    ∃ top, panelTopLine cw env v o box (panelChildWidth cw v o (panelInner cw v p c) w) = some top ∧
       splitLines out = [top]
         ++ ((panelInner cw v p c).linesAt cw (panelChildWidth cw v o (panelInner cw v p c) w) true).map
             (fun l => [seg [box.midLeft]] ++ l ++ [seg [box.midRight]])
@@ -260,7 +263,7 @@ theorem panelConsole_lines (cw : Char → Nat) (hsp : cw ' ' = 1) (h2 : ∀ c, c
     · exact hn3
   | some t =>
     simp only [hT] at h
-    cases hts : textConsoleSimple (σ := σ) cw (textAlign cw t o.titleAlign (cwid - 2) box.top) []
+    cases hts : textConsoleSimple (σ := σ) cw v (textAlign cw t o.titleAlign (cwid - 2) box.top) []
         (env.consoleWidth : Int) with
     | none => simp [hts] at h
     | some ts =>
@@ -269,7 +272,7 @@ theorem panelConsole_lines (cw : Char → Nat) (hsp : cw ' ' = 1) (h2 : ∀ c, c
       have hout : out = _ := (Option.some.inj (Except.ok.inj h)).symm
       rw [hout]
       apply key
-      refine ((nlFree_seg _ ?_).append (textConsoleSimple_nlFree cw _ _ ts hts)).append (nlFree_seg _ ?_)
+      refine ((nlFree_seg _ ?_).append (textConsoleSimple_nlFree cw v _ _ ts hts)).append (nlFree_seg _ ?_)
       · intro d hd
         simp only [List.mem_cons, List.not_mem_nil, or_false] at hd
         rcases hd with rfl | rfl
@@ -315,15 +318,24 @@ theorem lineLength_boxRow (cw : Char → Nat) (a b z : Char) (ha : cw a = 1) (hb
   rw [lineLength_seg, cellLen_append, cellLen_append, cellLen_rep cw n b hb]
   simp [cellLen, ha, hz]; omega
 
-/-- the title part of the top border, when nothing is stripped: exactly the aligned title -/
-theorem textConsoleSimple_of_fits (cw : Char → Nat) (plain : List Char) (w : Int) (ts : List (Segment σ))
-    (h : textConsoleSimple cw plain [] w = some ts) (hlen : (plain.length : Int) ≤ w) :
+/-- the title part of the top border, when nothing is stripped: exactly the aligned title.  Today's
+`rstrip_end` needs the text to have no more characters than cells available; the repaired one never
+strips a text that fits. -/
+theorem textConsoleSimple_of_fits (cw : Char → Nat) (v : Variant) (plain : List Char) (w : Int) (ts : List (Segment σ))
+    (h : textConsoleSimple cw v plain [] w = some ts) (hlen : v.rstripCountsChars = true → (plain.length : Int) ≤ w) :
     lineLength cw ts = cellLen cw plain := by
   unfold textConsoleSimple at h
   split at h
-  · have hr : rstripEnd plain w = plain := by
+  · rename_i hc
+    simp only [Bool.and_eq_true, decide_eq_true_eq] at hc
+    have hr : rstripEnd cw v plain w = plain := by
       unfold rstripEnd
-      rw [if_neg (by omega)]
+      simp only
+      rw [if_neg]
+      cases hv : v.rstripCountsChars
+      · simp only [Bool.false_eq_true, if_false]; omega
+      · have := hlen hv
+        simp only [if_true]; omega
     simp only [hr, List.isEmpty_nil, if_true, List.append_nil, Option.some.injEq] at h
     subst h
     split
